@@ -1176,8 +1176,8 @@ class PerturbedDroplet3D(PerturbedDropletBase):
             if a != 0:
                 l, _ = spherical.spherical_index_lm(k)
                 hk = (l**2 + l - 2) / 2
-                correction = a * hk * Yk(k, θ, φ)  # type: ignore
-        return 1 / self.radius + correction / self.radius**2  # type: ignore
+                correction += a * hk * Yk(k, θ, φ)  # type: ignore
+        return (1 + correction) / self.radius  # type: ignore
 
     @property
     def volume(self) -> float:
@@ -1273,8 +1273,8 @@ class PerturbedDroplet3DAxisSym(PerturbedDropletBase):
         for order, a in enumerate(self.amplitudes, 1):  # skip zero-th mode!
             if a != 0:
                 hl = (order**2 + order - 2) / 2
-                correction = a * hl * Yl(order, θ)  # type: ignore
-        return 1 / self.radius + correction / self.radius**2  # type: ignore
+                correction += a * hl * Yl(order, θ)  # type: ignore
+        return (1 + correction) / self.radius  # type: ignore
 
     @property
     def volume_approx(self) -> float:
